@@ -124,7 +124,7 @@ Proof. intros. eapply c07_never_ends_joined; eauto using go_shape_ok. Qed.
 (* the code as it was before the repair (no restore): the same model refutes the property *)
 Definition unrestored_shape : code_shape :=
   {| cs_table := cs_table go_shape; cs_default := cs_default go_shape; cs_restores := false;
-     cs_second := cs_second go_shape |}.
+     cs_second := cs_second go_shape; cs_panic_total := cs_panic_total go_shape |}.
 Definition nested_required : scope :=
   Scope Required 1 true [Scope Required 2 true [] ONil] ONil.
 
